@@ -122,6 +122,8 @@ def e2e_case(case):
     for i in range(n_inputs):
         spec = json.loads(json.dumps(REAL_SPEC))
         spec['ranges']['error_rate'] = [0.05 + 0.1 * i, 0.3]
+        if case.get('method') == 'splitting' and i % 2 == 0:
+            spec['ranges']['method'] = {'name': 'splitting', 'parameters': {'n_init_runs': 2}}
         with open(os.path.join(d, 'inputs', f'in_{i}.json'), 'w') as f:
             json.dump(spec, f)
     tasks = []
@@ -165,10 +167,15 @@ def e2e_case(case):
                                     f'({type(exc).__name__})'})
             continue
         runs = sorted({int(r['results']['n_runs']) for r in recs})
-        if runs != [n_runs] or len(recs) != 2:
+        # trials actually present: one entry per trial in every per-trial list
+        # (direct: success flags; splitting: one chain per error rate)
+        present = sorted({len(x) for r in recs for x in (
+            r['results']['log_p_errors'] if 'log_p_errors' in r['results']
+            else [r['results']['success']])})
+        if runs != [n_runs] or present != [n_runs]:
             fails.append({'relation': 'task_ran_its_share',
-                          'detail': f'{os.path.basename(res)}: {len(recs)} records with n_runs {runs}, '
-                                    f'the task was given {n_runs}'})
+                          'detail': f'{os.path.basename(res)}: {len(recs)} records with n_runs {runs} '
+                                    f'holding {present} trials, the task was given {n_runs}'})
         per_input[inp] = per_input.get(inp, 0) + n_runs
     if not fails:
         for i in range(n_inputs):
@@ -178,7 +185,7 @@ def e2e_case(case):
                               'detail': f'in_{i}.json: {got} trials in the result files, requested {trials}'})
     shutil.rmtree(d, ignore_errors=True)
     one = any(t[2] == 1 for t in tasks)
-    return {'fails': fails[:6], 'nontrivial': one, 'labels': ['end-to-end',
+    return {'fails': fails[:6], 'nontrivial': one, 'labels': ['end-to-end', 'method:' + case.get('method', 'direct'),
             'has-one-trial-task' if one else 'all-tasks>=2-trials'], 'evals': len(tasks)}
 
 
@@ -392,6 +399,7 @@ def e2e_cases(draw):
     lo = max_tasks_per_input(n_inputs, N * C)
     trials = draw(st.integers(lo, lo + 4))
     return {'e2e': True, 'n_inputs': n_inputs, 'n_nodes': N, 'n_cores': C, 'trials': trials,
+            'method': draw(st.sampled_from(['direct', 'direct', 'splitting'])),
             'order': list(draw(st.permutations(list(range(1, N + 1)))))}
 
 
